@@ -30,9 +30,9 @@ def doc_pairs():
 
 def make_jobs(chk):
     quick = chk.tier == "quick"
-    jobs = gen_spend.spend_jobs(chk, n_per_cell=2 if quick else 25)
+    jobs = gen_spend.spend_jobs(chk, n_per_cell=2 if quick else 120)
     flagsets = [[f for f in STANDARD if f != x] for x in ("NULLDUMMY", "NULLFAIL", "STRICTENC", "MINIMALIF", "LOW_S", "CLEANSTACK")]
-    jobs += gen_spend.spend_jobs(chk, prefix="fl", n_per_cell=1 if quick else 6, muts=["valid", "wrong-key", "empty-sig"], flagsets=flagsets)
+    jobs += gen_spend.spend_jobs(chk, prefix="fl", n_per_cell=1 if quick else 30, muts=["valid", "wrong-key", "empty-sig"], flagsets=flagsets)
     jobs += gen_spend.targeted_jobs(chk)
     for name, tx, txin in doc_pairs():
         jobs.append(SessionJob("doc:" + name, b"", [], STANDARD, "BASE", cmds=["steps"], cmp=gen_spend.CMP_SPEND, auto=True, txctx={"tx": tx, "txin": txin, "select": -1}))
